@@ -100,6 +100,8 @@ class Runner(HistoryRunner):
 
 def _cfg_variant(cfg, h):
     """Every third CSV history runs with flush_on_insert=False (reads go through the same buffered handle)."""
+    if cfg["storage"] == "csv" and h % 11 == 5:
+        return dict(cfg, access_mode="w+")  # a database created with "w+" and then used for everything
     if cfg["storage"] == "csv" and h % 3 == 0:
         return dict(cfg, flush=False)
     if cfg["storage"] == "csv" and h % 7 == 4:
